@@ -1213,14 +1213,19 @@ def normalise_shortcircuit(tree):
 # ------------------------------------------------------------------------------------------ entry point
 def normalise_program(trees):
     """trees: path -> ast.Module (mutated in place).  Returns {path: number of inlined call sites}."""
+    reshaped = {}
     for path, tree in trees.items():
-        normalise_loops(tree)
-        while normalise_ifexp(tree):
-            pass
-        normalise_shortcircuit(tree)
+        n_ = normalise_loops(tree)
+        k_ = normalise_ifexp(tree)
+        while k_:
+            n_ += k_
+            k_ = normalise_ifexp(tree)
+        n_ += normalise_shortcircuit(tree)
+        if n_:
+            reshaped[path] = n_
     inv = inventory()
     if not inv:
-        return {}
+        return reshaped
     # program-wide method name census (a method helper must have a unique name)
     method_names = {}
     for path, tree in trees.items():
@@ -1322,4 +1327,6 @@ def normalise_program(trees):
         ast.fix_missing_locations(tree)
         if total:
             stats[path] = total
+    for path, n_ in reshaped.items():
+        stats[path] = stats.get(path, 0) + n_
     return stats
